@@ -191,6 +191,14 @@ def run(tier):
     except Hang as e:
         e2e_rej, e2e_cov = [(PROP + '.pipeline_did_not_terminate', {'lang': '?', 'pipeline': {'hang': str(e)}, 'what': 'end-to-end pipeline replay'})], \
             {'states': 0, 'transitions': 0, 'parser_events': 0, 'render_and_read_events': 0, 'filter_events': 0, 'note': 'pipeline replay did not terminate'}
+    # the command-line driver against Driver.tla (outside the listed properties: reported, never a violation)
+    from .. import driver
+    try:
+        drv = run_forked(driver.conformance, 900 if tier == 'quick' else 7200, tier, random.Random(seed() + 190))
+    except Hang as e:
+        drv = {'states': 0, 'events': 0, 'deviations': {'DRIVER.run_did_not_terminate (%s)' % e: 1}, 'first_deviation': {}}
+    if drv['deviations']:
+        print('NOTE driver conformance (outside the listed properties): the real main deviates from Driver.tla: %s' % drv['deviations'])
     rejects, stats = validate('traces/RenderTrace.tla', events, 'c19', per_shard=400)
     demo = rf.render_binding_demo(events, 'c19')
     viols = []
@@ -205,7 +213,7 @@ def run(tier):
         else:
             other[clause] = other.get(clause, 0) + 1
     e2e_cov['clauses_of_other_properties_rejected'] = other
-    cov = {'end_to_end_pipeline_replay': e2e_cov, 'binding_demonstration': demo,
+    cov = {'end_to_end_pipeline_replay': e2e_cov, 'command_line_driver_against_Driver_tla': drv, 'binding_demonstration': demo,
            'states': stats.states + e2e_cov['states'], 'transitions': stats.transitions + e2e_cov['transitions'],
            'traces_validated_against_impl': len(events) + e2e_cov['parser_events'] + e2e_cov['render_and_read_events'] + e2e_cov['filter_events'],
            'events': {'batches': n_batches, 'formats': fmts, 'labels_covered': {k: sorted(v) for k, v in labels_seen.items()}, 'events': len(events)},
